@@ -116,6 +116,8 @@ CoerceArgs(C, fdef, node) ==
   LET n == Len(fdef.args)
       eff == [i \in 1..n |-> ArgEff(C, fdef.args[i], node)]
       bad == {i \in 1..n : IsNN(fdef.args[i].type) /\ (IsAbsent(eff[i]) \/ IsNull(eff[i]))}
+             \* an argument-definition directive whose hook raises for the value 13 (see SExec!GdArgs): the field fails, no call
+             \cup {i \in 1..n : "dirs" \in DOMAIN fdef.args[i] /\ eff[i] = Int(13)}
       keep == SelectSeq([i \in 1..n |-> i], LAMBDA i : ~IsAbsent(eff[i])) IN
   [ok |-> bad = {},
    v  |-> [j \in 1..Len(keep) |-> <<fdef.args[keep[j]].name, eff[keep[j]]>>]]
